@@ -210,6 +210,7 @@ func (d *Document) isWholeDocument(r *lsp.Range) bool {
 	if r.Start.Line != 0 || r.Start.Character != 0 {
 		return false
 	}
+	// The range has been normalized, so the end of the document is the end of the last line.
 	l, c := d.Len()
-	return r.End.Line == uint32(l) || r.End.Character == uint32(c)
+	return r.End.Line == uint32(l-1) && r.End.Character == uint32(c)
 }
